@@ -306,8 +306,9 @@ func (c *cuckooSentCache) Resize(cfg config.SampleCacheConfig) error {
 // The bool return value is true if the trace was found in the cache.
 // It does not modify the count information.
 func (c *cuckooSentCache) CheckTrace(traceID string) (TraceSentRecord, string, bool) {
-	// was it dropped?
-	if c.dropped.Check(traceID) {
+	// was it dropped? A recent drop may still be waiting in the filter's add
+	// queue, so consult the recent-drop set too, as CheckSpan does.
+	if c.recentDroppedIDs.Contains(traceID) || c.dropped.Check(traceID) {
 		// we recognize it as dropped, so just say so; there's nothing else to do
 		return &cuckooDroppedRecord{}, "", true
 	}
